@@ -1,5 +1,5 @@
 \* The repaired code: latch cleared when a search is started, Hash minimum 1.
-CONSTANTS ResetOnGo = TRUE MaxCmds = 0 HashMinZero = FALSE
+CONSTANTS ResetOnGo = TRUE MaxCmds = 0 HashMinZero = FALSE InfiniteMayEnd = TRUE
 SPECIFICATION Spec
 INVARIANTS TypeOK MutexOwner OneBestmovePerGo GoSlotFree NoHang NoCrash
 PROPERTIES MainReturns GoAnswered
